@@ -76,9 +76,20 @@ func quotedPiece(r *rand.Rand, pattern bool) (string, string) {
 	return "\"" + sb.String() + "\"", "dq"
 }
 
-func genStmt(r *rand.Rand, depth int, top bool, out *[]GTok) {
+// lookalikes are keywords that resemble `pattern`; only the exact unquoted keyword `pattern` exempts the
+// undefined backslash pairs of its argument.
+var lookalikes = []string{"posix-pattern", "x:pattern", "oc-ext:posix-pattern", "pattern:x", "a:b:pattern", "patterns",
+	"Pattern", "x:posix-pattern", "pattern-", ":pattern"}
+
+func genStmt(r *rand.Rand, depth int, top bool, look bool, out *[]GTok) {
 	kw := kwPool[r.Intn(len(kwPool))]
 	pat := kw == "pattern"
+	if r.Intn(12) == 0 {
+		// a look-alike keyword; with `look` its argument is written as if it were a pattern in half the
+		// cases (the text is then to be rejected), otherwise as an ordinary argument
+		kw = lookalikes[r.Intn(len(lookalikes))]
+		pat = look && r.Intn(2) == 0
+	}
 	*out = append(*out, GTok{Text: kw, Kind: "kw", Top: top})
 	switch k := r.Intn(10); {
 	case k < 2:
@@ -101,7 +112,7 @@ func genStmt(r *rand.Rand, depth int, top bool, out *[]GTok) {
 		*out = append(*out, GTok{Text: "{", Kind: "lbrace"})
 		n := r.Intn(4)
 		for i := 0; i < n; i++ {
-			genStmt(r, depth-1, false, out)
+			genStmt(r, depth-1, false, look, out)
 		}
 		*out = append(*out, GTok{Text: "}", Kind: "rbrace", Top: top})
 	} else {
@@ -110,7 +121,11 @@ func genStmt(r *rand.Rand, depth int, top bool, out *[]GTok) {
 }
 
 // GenTokens produces the tokens of a random well-formed forest.
-func GenTokens(r *rand.Rand) []GTok {
+func GenTokens(r *rand.Rand) []GTok { return GenTokensOpt(r, false) }
+
+// GenTokensOpt: with look, statements whose keyword only resembles `pattern` may carry pattern-style
+// escapes (such a text is not well-formed any more: the reference reader rejects it).
+func GenTokensOpt(r *rand.Rand, look bool) []GTok {
 	var out []GTok
 	n := 1 + r.Intn(3)
 	for i := 0; i < n; i++ {
@@ -118,7 +133,7 @@ func GenTokens(r *rand.Rand) []GTok {
 			genChain(r, 8+r.Intn(5), &out)
 			continue
 		}
-		genStmt(r, 3, true, &out)
+		genStmt(r, 3, true, look, &out)
 	}
 	return out
 }
@@ -176,7 +191,7 @@ func Render(r *rand.Rand, toks []GTok) (string, []int) {
 // Mutate damages a text: token deletion/duplication/insertion, byte deletion/insertion, truncation, invalid UTF-8.
 func Mutate(r *rand.Rand, toks []GTok) string {
 	t := append([]GTok{}, toks...)
-	switch r.Intn(9) {
+	switch r.Intn(10) {
 	case 3: // quote a concatenation operator: `"a" "+" "b"` is a syntax error, not a concatenation
 		var cand []int
 		for i := range t {
@@ -190,6 +205,21 @@ func Mutate(r *rand.Rand, toks []GTok) string {
 				t[i] = GTok{Text: "\"+\"", Kind: "dq"}
 			} else {
 				t[i] = GTok{Text: "'+'", Kind: "sq"}
+			}
+		}
+	case 4: // turn a keyword into `pattern` or a look-alike of it, or back
+		var cand []int
+		for i := range t {
+			if t[i].Kind == "kw" {
+				cand = append(cand, i)
+			}
+		}
+		if len(cand) > 0 {
+			i := cand[r.Intn(len(cand))]
+			if t[i].Text == "pattern" || r.Intn(4) > 0 {
+				t[i].Text = lookalikes[r.Intn(len(lookalikes))]
+			} else {
+				t[i].Text = "pattern"
 			}
 		}
 	case 0: // delete a token
@@ -494,6 +524,32 @@ func DeepAndRuns() []Case {
 				}
 				add(u.pre + strings.Join(parts, j) + u.post)
 			}
+		}
+	}
+	return out
+}
+
+// PatternLookalikes is a deterministic family around the pattern exemption: every keyword of a list of
+// look-alikes of `pattern` (and `pattern` itself, unquoted and quoted) with every argument of a list of
+// double-quoted strings and concatenations with undefined backslash pairs, alone, with a substatement, and
+// next to a real `pattern` statement on either side (the flag must be dropped again).
+func PatternLookalikes() []Case {
+	var out []Case
+	add := func(t string) { out = append(out, Case{Text: t, Stream: "pattern_lookalikes"}) }
+	kws := append([]string{"pattern", "\"pattern\"", "'pattern'", "PATTERN", "p:Pattern", "pattern:", "prefix:patterns",
+		"description", "x", "pattern+", "pat"}, lookalikes...)
+	args := []string{"\"\\d+\"", "\"\\S\"", "\"a\\.b\"", "\"\\n\\d\"", "'\\d'", "\"a\" + \"\\d\"", "'a' + \"\\d\"",
+		"\"\\d\" + 'a'", "\"\\\\d\"", "\"ok\"", "\"\\q\" + \"x\" + \"\\z\"", "\\d", "\"\\d\"+\"\\n\"", "\"a\n  \\d\"",
+		"\"\\ \"", "\"\\é\""}
+	for _, k := range kws {
+		for _, a := range args {
+			add(k + " " + a + ";")
+			add(k + " " + a + " { " + k + " " + a + "; }")
+			add("pattern \"\\d\"; " + k + " " + a + ";")
+			add(k + " " + a + "; pattern \"\\d\";")
+			add("pattern \"\\d\" { " + k + " " + a + "; } x \"\\q\";")
+			add(k + " " + a + " { pattern \"\\d\" + \"\\s\"; }")
+			add("a { pattern " + a + "; " + k + " " + a + "; pattern " + a + "; }")
 		}
 	}
 	return out
